@@ -10,6 +10,7 @@ import (
 
 	"github.com/dtn7/dtn7-go/pkg/agent"
 	"github.com/dtn7/dtn7-go/pkg/bpv7"
+	"github.com/dtn7/dtn7-go/pkg/routing"
 
 	"verifh/internal/bubble"
 	"verifh/internal/model"
@@ -151,6 +152,12 @@ var modeNames = []string{"now", "zero-time", "two-minutes-ago"}
 
 // submissions: n bundles with coinciding source and creation time through one path.
 func submissions(r *report.Run, rng *report.Rand, idx int, algo string, path int, n int, mode int, withPeer bool, concurrent bool) {
+	submissionsK(r, rng, idx, algo, path, n, mode, withPeer, concurrent, 0)
+}
+
+// submissionsK: with workers > 0 the n bundles are submitted by that many goroutines, each looping over its share (many
+// back-to-back calls per goroutine: the counter updates of different goroutines then overlap at arbitrary phases).
+func submissionsK(r *report.Run, rng *report.Rand, idx int, algo string, path int, n int, mode int, withPeer bool, concurrent bool, workers int) {
 	label := fmt.Sprintf("%s:%s", []string{"SendBundle", "agent"}[path], modeNames[mode])
 	if concurrent {
 		label += ":concurrent"
@@ -180,7 +187,51 @@ func submissions(r *report.Run, rng *report.Rand, idx int, algo string, path int
 			bs = append(bs, mkBundle(pid, src, mode, now))
 		}
 		s.Step("submit_group", fmt.Sprintf("%d via %s", n, label))
-		if concurrent {
+		if concurrent && workers > 0 {
+			var wg sync.WaitGroup
+			start := make(chan struct{})
+			for w := 0; w < workers; w++ {
+				wg.Add(1)
+				go func(w int) {
+					defer wg.Done()
+					<-start
+					for i := w; i < len(bs); i += workers {
+						if path == 1 {
+							ag.MessageSender() <- agent.BundleMessage{Bundle: bs[i]}
+						} else {
+							b := bs[i]
+							s.Core.SendBundle(&b)
+						}
+					}
+				}(w)
+			}
+			// two more goroutines draw numbers for the same (source, creation time) from the node's own keeper all the
+			// while (numbers that are simply used up): the submitters' updates now overlap with other updates at
+			// arbitrary phases instead of marching in step behind the store's mutex
+			stop := make(chan struct{})
+			var hw sync.WaitGroup
+			for h := 0; h < 2; h++ {
+				hw.Add(1)
+				go func() {
+					defer hw.Done()
+					hb := mkBundle("hammer", src, mode, now)
+					for {
+						select {
+						case <-stop:
+							return
+						default:
+						}
+						s.Core.VerifAssignSequenceNumber(&hb)
+						r.Count("conc_race.numbers_drawn_alongside", 1)
+					}
+				}()
+			}
+			close(start)
+			wg.Wait()
+			close(stop)
+			hw.Wait()
+			s.Wait()
+		} else if concurrent {
 			var wg sync.WaitGroup
 			for i := range bs {
 				wg.Add(1)
@@ -219,6 +270,12 @@ func submissions(r *report.Run, rng *report.Rand, idx int, algo string, path int
 			seen[contentKey(x.Bundle)] = true
 		}
 		for _, k := range keys {
+			if !seen[k] && algo != "epidemic" {
+				// only epidemic routing must offer every bundle to every new peer; the others may legitimately wait
+				// for a route / a better carrier - then there is no wire ID to compare for this bundle
+				r.Count("not_transmitted_by_choice_of."+algo, 1)
+				continue
+			}
 			if !seen[k] {
 				o.violation("c14.never-transmitted:"+label, fmt.Sprintf("bundle %s was never handed to a convergence layer although peers were connected", k))
 			}
@@ -435,6 +492,26 @@ func TestCheck(t *testing.T) {
 	})
 	r.Exhaustive("group size 1..6 x {SendBundle, agent manager} x {now, zero time, two minutes ago} x {no peer, peer} x {sequential, concurrent}")
 
+	// larger concurrent groups; in the quick tier this group (only) runs under the race detector: an unsynchronised
+	// access to the counters is reported for any two overlapping submissions, whether or not the tiny window in which
+	// two bundles would actually get the same number is hit in this run
+	r.Group("conc-race", r.Pick(16, 400), func(i int, rng *report.Rand) {
+		algo := []string{"epidemic", "spray", "prophet", "dtlsr", "binary_spray"}[i%5]
+		workers := 3 + i%6
+		path := 0
+		if i%8 == 7 {
+			path = 1 // the agent manager serialises submissions; mostly the direct path is stressed
+		}
+		submissionsK(r, rng, 100000+i, algo, path, workers*r.Pick(4, 12), i%3, i%4 < 2, true, workers)
+		r.Count("conc_race.groups", 1)
+	})
+
+	// the keeper alone under contention: W goroutines number bundles of the same few (source, creation time) tuples;
+	// every (tuple, sequence number) pair may be given out once. Runs in the plain and in the race-instrumented pass.
+	for _, g := range []string{"idkeeper-stress", "conc-race-idkeeper"} {
+		r.Group(g, r.Pick(16, 160), func(i int, rng *report.Rand) { keeperStress(r, rng, i) })
+	}
+
 	r.Group("restart-gaps", r.Pick(48, 600), func(i int, rng *report.Rand) {
 		restartGaps(r, rng, i)
 	})
@@ -445,4 +522,54 @@ func TestCheck(t *testing.T) {
 			r.Sample(map[string]interface{}{"node_made": []string{"status-reports", "pongs", "prophet-metadata", "dtlsr-metadata"}[i%4], "n": 2 + (i/4)%5})
 		}
 	})
+}
+
+// keeperStress hammers one IdKeeper from several goroutines.
+func keeperStress(r *report.Run, rng *report.Rand, idx int) {
+	k := routing.VerifNewIdKeeper()
+	workers := 2 + idx%7
+	per := 4000
+	now := time.Now()
+	protos := []bpv7.Bundle{mkBundle("k", "dtn://node/app", 1, now), mkBundle("k", "dtn://node/app", 0, now), mkBundle("k", "dtn://node/other", 1, now)}
+	ntuples := 1 + idx%3
+	type got struct {
+		tuple int
+		seq   uint64
+	}
+	res := make([][]got, workers)
+	var wg sync.WaitGroup
+	start := make(chan struct{})
+	for w := 0; w < workers; w++ {
+		wg.Add(1)
+		go func(w int) {
+			defer wg.Done()
+			<-start
+			out := make([]got, 0, per)
+			for j := 0; j < per; j++ {
+				t := (w + j) % ntuples
+				b := protos[t]
+				k.Update(&b)
+				out = append(out, got{t, b.PrimaryBlock.CreationTimestamp.SequenceNumber()})
+			}
+			res[w] = out
+		}(w)
+	}
+	close(start)
+	wg.Wait()
+	seen := map[got]int{}
+	for _, out := range res {
+		for _, g := range out {
+			seen[g]++
+		}
+	}
+	r.Evals(workers * per)
+	for g, c := range seen {
+		if c > 1 {
+			r.Violation("c14.keeper-number-given-twice:concurrent", fmt.Sprintf("sequence number %d of one (source, creation time) was assigned %d times by concurrent updates (%d goroutines)", g.seq, c, workers),
+				map[string]interface{}{"workers": workers, "updates_per_worker": per, "tuples": ntuples})
+			return
+		}
+	}
+	r.Count("keeper_stress.numbers_assigned_distinct", len(seen))
+	r.Nontrivial("keeper", idx, workers, ntuples)
 }
